@@ -9,27 +9,27 @@ From Coq Require Import Lia.
 Local Open Scope N_scope.
 
 Lemma endpoints_wf :
-  forallb (fun e => wf_msgb (ep_req e) && wf_msgb (ep_resp e) && distinguishableb (ep_resp e) WS.ClientApiError)
-          WS.ENDPOINTS = true.
+  forallb (fun e => wf_msgb (ep_req e) && wf_msgb (ep_resp e) && distinguishableb (ep_resp e) WireSpec.ClientApiError)
+          WireSpec.ENDPOINTS = true.
 Proof. vm_compute. reflexivity. Qed.
 
-Lemma messages_wf : forallb (fun nm => wf_msgb (snd nm)) WS.MESSAGES = true.
+Lemma messages_wf : forallb (fun nm => wf_msgb (snd nm)) WireSpec.MESSAGES = true.
 Proof. vm_compute. reflexivity. Qed.
 
-Lemma api_error_same : WS.TowerApiError = WS.ClientApiError.
+Lemma api_error_same : WireSpec.TowerApiError = WireSpec.ClientApiError.
 Proof. reflexivity. Qed.
 
-Lemma api_error_wf : wf_msgb WS.ClientApiError = true.
+Lemma api_error_wf : wf_msgb WireSpec.ClientApiError = true.
 Proof. vm_compute. reflexivity. Qed.
 
-Lemma api_order : WS.API_RESPONSE_ORDER = [AVResponse; AVError].
+Lemma api_order : WireSpec.API_RESPONSE_ORDER = [AVResponse; AVError].
 Proof. reflexivity. Qed.
 
-Lemma status_ok : status_table_okb WS.STATUS = true.
+Lemma status_ok : status_table_okb WireSpec.STATUS = true.
 Proof. vm_compute. reflexivity. Qed.
 
-Lemma endpoint_facts e : In e WS.ENDPOINTS ->
-  wf_msgb (ep_req e) = true /\ wf_msgb (ep_resp e) = true /\ distinguishableb (ep_resp e) WS.ClientApiError = true.
+Lemma endpoint_facts e : In e WireSpec.ENDPOINTS ->
+  wf_msgb (ep_req e) = true /\ wf_msgb (ep_resp e) = true /\ distinguishableb (ep_resp e) WireSpec.ClientApiError = true.
 Proof.
   intros H. pose proof endpoints_wf as W. rewrite forallb_forall in W. specialize (W e H).
   apply andb_true_iff in W. destruct W as [W D]. apply andb_true_iff in W. destruct W as [W1 W2]. auto.
@@ -37,13 +37,13 @@ Qed.
 
 (* ---------------- requests ---------------- *)
 Lemma tower_parses_client e req :
-  In e WS.ENDPOINTS -> typedb (ep_req e) req = true -> of_json_tower e (to_json_client e req) = Some req.
+  In e WireSpec.ENDPOINTS -> typedb (ep_req e) req = true -> of_json_tower e (to_json_client e req) = Some req.
 Proof.
   intros H Ty. destruct (endpoint_facts e H) as [W _]. apply msg_roundtrip; assumption.
 Qed.
 
 Lemma tower_forwards_client e req len :
-  In e WS.ENDPOINTS -> typedb (ep_req e) req = true -> handler_check e req = None -> (len <= ep_cap e)%Z ->
+  In e WireSpec.ENDPOINTS -> typedb (ep_req e) req = true -> handler_check e req = None -> (len <= ep_cap e)%Z ->
   tower_http e len (Some (to_json_client e req)) = TForward req.
 Proof.
   intros H Ty HC L. unfold tower_http. replace (ep_cap e <? len)%Z with false by (symmetry; apply Z.ltb_ge; exact L).
@@ -56,43 +56,43 @@ Proof.
   unfold check_sized. rewrite L. rewrite Z.eqb_refl. reflexivity.
 Qed.
 
-Lemma handler_ok_register u : length u = 33%nat -> handler_check WS.EP_register (mk_register_request u) = None.
+Lemma handler_ok_register u : length u = 33%nat -> handler_check WireSpec.EP_register (mk_register_request u) = None.
 Proof.
-  intros L. change (handler_check WS.EP_register (mk_register_request u))
+  intros L. change (handler_check WireSpec.EP_register (mk_register_request u))
     with (check_sized (Some (VBytes u)) Consts.USER_ID_LEN).
   apply check_sized_ok; [rewrite L; reflexivity | reflexivity].
 Qed.
 
 Lemma handler_ok_add_appointment l b t x s :
-  length l = 16%nat -> handler_check WS.EP_add_appointment (mk_add_appointment_request l b t (x :: s)) = None.
+  length l = 16%nat -> handler_check WireSpec.EP_add_appointment (mk_add_appointment_request l b t (x :: s)) = None.
 Proof.
-  intros L. change (handler_check WS.EP_add_appointment (mk_add_appointment_request l b t (x :: s)))
+  intros L. change (handler_check WireSpec.EP_add_appointment (mk_add_appointment_request l b t (x :: s)))
     with (first_err (check_sized (Some (VBytes l)) Consts.LOCATOR_LEN) None).
   rewrite check_sized_ok; [reflexivity | rewrite L; reflexivity | reflexivity].
 Qed.
 
 Lemma handler_ok_get_appointment l x s :
-  length l = 16%nat -> handler_check WS.EP_get_appointment (mk_get_appointment_request l (x :: s)) = None.
+  length l = 16%nat -> handler_check WireSpec.EP_get_appointment (mk_get_appointment_request l (x :: s)) = None.
 Proof.
-  intros L. change (handler_check WS.EP_get_appointment (mk_get_appointment_request l (x :: s)))
+  intros L. change (handler_check WireSpec.EP_get_appointment (mk_get_appointment_request l (x :: s)))
     with (first_err (check_sized (Some (VBytes l)) Consts.LOCATOR_LEN) None).
   rewrite check_sized_ok; [reflexivity | rewrite L; reflexivity | reflexivity].
 Qed.
 
 Lemma handler_ok_get_subscription_info x s :
-  handler_check WS.EP_get_subscription_info (mk_get_subscription_info_request (x :: s)) = None.
+  handler_check WireSpec.EP_get_subscription_info (mk_get_subscription_info_request (x :: s)) = None.
 Proof. reflexivity. Qed.
 
 (* ---------------- replies ---------------- *)
 Lemma client_parses_tower_response e r :
-  In e WS.ENDPOINTS -> typedb (ep_resp e) r = true -> of_json_client e (to_json_tower e r) = CResponse r.
+  In e WireSpec.ENDPOINTS -> typedb (ep_resp e) r = true -> of_json_client e (to_json_tower e r) = CResponse r.
 Proof.
   intros H Ty. destruct (endpoint_facts e H) as [_ [W _]].
   apply client_decodes_response; auto; intros _; apply api_order.
 Qed.
 
 Lemma client_parses_tower_error e err :
-  In e WS.ENDPOINTS -> ep_client_wrapped e = true -> typedb WS.TowerApiError err = true ->
+  In e WireSpec.ENDPOINTS -> ep_client_wrapped e = true -> typedb WireSpec.TowerApiError err = true ->
   of_json_client e (to_json_err err) = CError err.
 Proof.
   intros H Wr Ty. destruct (endpoint_facts e H) as [_ [_ D]].
@@ -101,7 +101,7 @@ Proof.
 Qed.
 
 Lemma client_loses_tower_error e err :
-  In e WS.ENDPOINTS -> ep_client_wrapped e = false -> typedb WS.TowerApiError err = true ->
+  In e WireSpec.ENDPOINTS -> ep_client_wrapped e = false -> typedb WireSpec.TowerApiError err = true ->
   of_json_client e (to_json_err err) = CDeserializeError.
 Proof.
   intros H Wr Ty. destruct (endpoint_facts e H) as [_ [_ D]].
@@ -111,7 +111,7 @@ Qed.
 
 (* ---------------- every message type ---------------- *)
 Lemma reser_identity name m v :
-  In (name, m) WS.MESSAGES \/ m = WS.TowerApiError \/ m = WS.ClientApiError ->
+  In (name, m) WireSpec.MESSAGES \/ m = WireSpec.TowerApiError \/ m = WireSpec.ClientApiError ->
   typedb m v = true -> of_json m (to_json m v) = Some v.
 Proof.
   intros H Ty. apply msg_roundtrip; auto.
@@ -120,37 +120,37 @@ Proof.
 Qed.
 
 Lemma reser_stable_api name m j v :
-  In (name, m) WS.MESSAGES \/ m = WS.TowerApiError \/ m = WS.ClientApiError ->
+  In (name, m) WireSpec.MESSAGES \/ m = WireSpec.TowerApiError \/ m = WireSpec.ClientApiError ->
   of_json m j = Some v -> typedb m v = true /\ of_json m (to_json m v) = Some v.
 Proof.
-  intros H P. pose proof (dec_msg_typed WS.STATUS status_ok m j v P) as Ty. split; [exact Ty|].
+  intros H P. pose proof (dec_msg_typed WireSpec.STATUS status_ok m j v P) as Ty. split; [exact Ty|].
   apply (reser_identity name); assumption.
 Qed.
 
 (* ---------------- status names ---------------- *)
 Lemma status_doc_graph n s : In (n, s) Doc_STATUS_NAMES ->
-  status_emit WS.STATUS n = s /\ status_parse WS.STATUS s = Some n.
+  status_emit WireSpec.STATUS n = s /\ status_parse WireSpec.STATUS s = Some n.
 Proof.
   simpl. intros [H|[H|[H|[]]]]; inversion H; subst; split; vm_compute; reflexivity.
 Qed.
 
-Lemma status_parse_only_doc s n : status_parse WS.STATUS s = Some n -> In (n, s) Doc_STATUS_NAMES.
+Lemma status_parse_only_doc s n : status_parse WireSpec.STATUS s = Some n -> In (n, s) Doc_STATUS_NAMES.
 Proof.
-  unfold status_parse. destruct (assoc_str s (st_from_str WS.STATUS)) as [v|] eqn:E; [|discriminate].
+  unfold status_parse. destruct (assoc_str s (st_from_str WireSpec.STATUS)) as [v|] eqn:E; [|discriminate].
   apply assoc_str_In in E. simpl in E.
   destruct E as [E|[E|[E|[]]]]; inversion E; subst; vm_compute; intros H; inversion H; subst; auto.
 Qed.
 
-Lemma status_emit_total n : In (status_emit WS.STATUS n) (map snd Doc_STATUS_NAMES).
+Lemma status_emit_total n : In (status_emit WireSpec.STATUS n) (map snd Doc_STATUS_NAMES).
 Proof.
   unfold status_emit, status_variant_of_i32. simpl.
   destruct (Z.eqb n 1); [vm_compute; auto|]. destruct (Z.eqb n 2); vm_compute; auto.
 Qed.
 
-Lemma status_typed_iff n : typed_kindb WS.STATUS KStatus (VNum n) = true <-> In n (map fst Doc_STATUS_NAMES).
+Lemma status_typed_iff n : typed_kindb WireSpec.STATUS KStatus (VNum n) = true <-> In n (map fst Doc_STATUS_NAMES).
 Proof.
   simpl. split.
-  - destruct (status_parse WS.STATUS (status_emit WS.STATUS n)) as [n'|] eqn:E; [|discriminate].
+  - destruct (status_parse WireSpec.STATUS (status_emit WireSpec.STATUS n)) as [n'|] eqn:E; [|discriminate].
     intros H. apply Z.eqb_eq in H. subst n'. apply status_parse_only_doc in E.
     simpl in E. destruct E as [E|[E|[E|[]]]]; inversion E; auto.
   - intros [H|[H|[H|[]]]]; subst; vm_compute; reflexivity.
@@ -219,20 +219,20 @@ Ltac body_len := simpl; repeat rewrite esc_hex; repeat (progress (rewrite ?app_l
 
 (* Content-Length of what the client posts = number of bytes of serde_json::to_vec(&request) *)
 Lemma register_body_len u :
-  length (client_body WS.EP_register (mk_register_request u)) = (14 + 2 * length u)%nat.
+  length (client_body WireSpec.EP_register (mk_register_request u)) = (14 + 2 * length u)%nat.
 Proof. unfold client_body, to_json_client, to_json, mk_register_request. body_len. Qed.
 
 Lemma add_appointment_body_len l b t s :
-  length (client_body WS.EP_add_appointment (mk_add_appointment_request l b t s))
+  length (client_body WireSpec.EP_add_appointment (mk_add_appointment_request l b t s))
   = (82 + 2 * length l + 2 * length b + ndigits t + esc_len s)%nat.
 Proof. unfold client_body, to_json_client, to_json, mk_add_appointment_request, mk_appointment. body_len. Qed.
 
 Lemma get_appointment_body_len l s :
-  length (client_body WS.EP_get_appointment (mk_get_appointment_request l s)) = (29 + 2 * length l + esc_len s)%nat.
+  length (client_body WireSpec.EP_get_appointment (mk_get_appointment_request l s)) = (29 + 2 * length l + esc_len s)%nat.
 Proof. unfold client_body, to_json_client, to_json, mk_get_appointment_request. body_len. Qed.
 
 Lemma get_subscription_info_body_len s :
-  length (client_body WS.EP_get_subscription_info (mk_get_subscription_info_request s)) = (16 + esc_len s)%nat.
+  length (client_body WireSpec.EP_get_subscription_info (mk_get_subscription_info_request s)) = (16 + esc_len s)%nat.
 Proof. unfold client_body, to_json_client, to_json, mk_get_subscription_info_request. body_len. Qed.
 
 (* a signature produced by cryptography::sign: 104 zbase32 characters, nothing to escape *)
@@ -244,28 +244,28 @@ Proof. intros [L P]. unfold esc_len. rewrite esc_plain; assumption. Qed.
 (* with a 16-byte locator and a real signature the add_appointment body has
    218 + digits(to_self_delay) + 2*|blob| bytes; it passes content_length_limit iff that is <= the cap *)
 Definition add_appointment_len (l b : bytes) (t : Z) (s : str) : nat :=
-  length (client_body WS.EP_add_appointment (mk_add_appointment_request l b t s)).
+  length (client_body WireSpec.EP_add_appointment (mk_add_appointment_request l b t s)).
 
 Lemma within_limit l b t s :
   length l = 16%nat -> real_signature s -> U32b t = true ->
   add_appointment_len l b t s = (218 + ndigits t + 2 * length b)%nat /\
-  ((Z.of_nat (add_appointment_len l b t s) <= ep_cap WS.EP_add_appointment)%Z <-> (2 * length b + ndigits t <= 1830)%nat) /\
-  ((length b <= 910)%nat -> (Z.of_nat (add_appointment_len l b t s) <= ep_cap WS.EP_add_appointment)%Z) /\
-  ((915 <= length b)%nat -> (ep_cap WS.EP_add_appointment < Z.of_nat (add_appointment_len l b t s))%Z).
+  ((Z.of_nat (add_appointment_len l b t s) <= ep_cap WireSpec.EP_add_appointment)%Z <-> (2 * length b + ndigits t <= 1830)%nat) /\
+  ((length b <= 910)%nat -> (Z.of_nat (add_appointment_len l b t s) <= ep_cap WireSpec.EP_add_appointment)%Z) /\
+  ((915 <= length b)%nat -> (ep_cap WireSpec.EP_add_appointment < Z.of_nat (add_appointment_len l b t s))%Z).
 Proof.
   intros L RS U. unfold add_appointment_len. rewrite add_appointment_body_len, L, (real_signature_esc_len s RS).
   pose proof (dec_of_Z_length_u32 t U) as D. fold (ndigits t) in D.
-  change (ep_cap WS.EP_add_appointment) with 2048%Z.
+  change (ep_cap WireSpec.EP_add_appointment) with 2048%Z.
   repeat split; intros; lia.
 Qed.
 
 (* the other three requests always fit *)
 Lemma fixed_requests_fit u l s :
   length u = 33%nat -> length l = 16%nat -> real_signature s ->
-  length (client_body WS.EP_register (mk_register_request u)) = 80%nat /\
-  length (client_body WS.EP_get_appointment (mk_get_appointment_request l s)) = 165%nat /\
-  length (client_body WS.EP_get_subscription_info (mk_get_subscription_info_request s)) = 120%nat /\
-  (80 <= ep_cap WS.EP_register /\ 165 <= ep_cap WS.EP_get_appointment /\ 120 <= ep_cap WS.EP_get_subscription_info)%Z.
+  length (client_body WireSpec.EP_register (mk_register_request u)) = 80%nat /\
+  length (client_body WireSpec.EP_get_appointment (mk_get_appointment_request l s)) = 165%nat /\
+  length (client_body WireSpec.EP_get_subscription_info (mk_get_subscription_info_request s)) = 120%nat /\
+  (80 <= ep_cap WireSpec.EP_register /\ 165 <= ep_cap WireSpec.EP_get_appointment /\ 120 <= ep_cap WireSpec.EP_get_subscription_info)%Z.
 Proof.
   intros Lu Ll RS.
   rewrite register_body_len, get_appointment_body_len, get_subscription_info_body_len, Lu, Ll, (real_signature_esc_len s RS).
